@@ -8,7 +8,7 @@
     [vm_compute] for the extraction self-check.  All values are integers ([Z]):
     [-1] = None, [-2] = the call panicked, booleans 0/1. *)
 From Verif Require Import Base.Prelude Model.ShortMsg Model.PerChannel Model.CC14 Model.Nrpn
-  Model.Polling Spec.MidiTable Spec.CC14Spec.
+  Model.Polling Spec.MidiTable Spec.CC14Spec Spec.NrpnSpec.
 Open Scope Z_scope.
 
 Record verdict : Type := mkV { v_agree : bool; v_holds : bool; v_model : list Z }.
@@ -114,6 +114,130 @@ Definition model_80 (h : list cc14op) : list Z :=
 Definition spec_80 (h : list cc14op) : list Z :=
   flat_map enc_cc14 (cc14_spec_outs h).
 
+(** * C09 / C10 / C11 *)
+Definition zdt (d : datatype) : Z :=
+  match d with DataEntry => 0 | DataIncrement => 1 | DataDecrement => 2 end.
+
+Definition enc_pn (o : option pnmsg) : list Z :=
+  match o with
+  | None => [ZNONE; ZNONE; ZNONE; ZNONE; ZNONE; ZNONE]
+  | Some m => [zN (pn_channel m); zN (pn_number m); zN (pn_value m); zb (pn_is_registered m);
+               zb (pn_is_14_bit m); zdt (pn_data_type m)]
+  end.
+
+Definition enc_slot (o : option bytes) : list Z :=
+  match o with None => [ZNONE; ZNONE; ZNONE] | Some b => enc_bytes b end.
+
+Fixpoint dec_pnops (l : list Z) : list pnop :=
+  match l with
+  | k :: a :: b :: c :: t =>
+      (if Z.eqb k 2 then NReset else NFeed (op_bytes k a b c)) :: dec_pnops t
+  | _ => []
+  end.
+
+(** the eight public constructors, numbered as in the harness *)
+Definition pn_ctor (k : Z) (ch num v : N) : pnmsg :=
+  match k with
+  | 0 => non_registered_7_bit ch num v
+  | 1 => non_registered_14_bit ch num v
+  | 2 => non_registered_decrement ch num v
+  | 3 => non_registered_increment ch num v
+  | 4 => registered_7_bit ch num v
+  | 5 => registered_14_bit ch num v
+  | 6 => registered_decrement ch num v
+  | _ => registered_increment ch num v
+  end.
+
+(** what the constructor numbered [k] is documented to build (independent of [pn_ctor]) *)
+Definition pn_ctor_spec (k : Z) (ch num v : N) : pnmsg :=
+  mkPN ch num v (Z.leb 4 k) (Z.eqb k 1 || Z.eqb k 5)
+       (if Z.eqb k 2 || Z.eqb k 6 then DataDecrement
+        else if Z.eqb k 3 || Z.eqb k 7 then DataIncrement else DataEntry).
+
+Definition dec_order (z : Z) : byteorder := if Z.eqb z 0 then MsbFirst else LsbFirst.
+
+(** tag 90: constructor, getters, encoding into both implementations, array conversion *)
+Definition model_90 (k : Z) (ch num v : N) (order : Z) : list Z :=
+  let m := pn_ctor k ch num v in
+  match pn_to_short_messages raw_fbu m (dec_order order),
+        pn_to_short_messages struct_fbu m (dec_order order),
+        pn_to_short_messages raw_fbu m MsbFirst with
+  | Ok r, Ok s, Ok a =>
+      enc_pn (Some m) ++ flat_map enc_slot r ++ flat_map enc_slot (map (option_map struct_tb) s)
+        ++ flat_map enc_slot a
+  | _, _, _ => [ZPANIC]
+  end.
+
+Definition spec_90 (k : Z) (ch num v : N) (order : Z) : list Z :=
+  let m := pn_ctor_spec k ch num v in
+  let e := flat_map enc_slot (pn_encode_spec m (Z.eqb order 0)) in
+  enc_pn (Some m) ++ e ++ e ++ flat_map enc_slot (pn_encode_spec m true).
+
+Definition slots_to_ops (k : Z) (l : list (option bytes)) : list pnop :=
+  flat_map (fun o => match o with
+                     | Some b => [NFeed (op_bytes k (zN (fst (fst b))) (zN (snd (fst b))) (zN (snd b)))]
+                     | None => []
+                     end) l.
+
+(** tag 100: encoding fed after an arbitrary prior history *)
+Definition model_100 (k : Z) (ch num v : N) (order kind : Z) (prior : list pnop) : list Z :=
+  let m := pn_ctor k ch num v in
+  match pn_to_short_message_bytes m (dec_order order), pn_run pn_new_scanner prior with
+  | Ok l, Ok (s, _) => outs_or_panic (pn_run s (slots_to_ops kind l)) enc_pn
+  | _, _ => [ZPANIC]
+  end.
+
+Definition spec_100 (k : Z) (ch num v : N) : list Z :=
+  let m := pn_ctor_spec k ch num v in
+  if pn_is_14_bit m then enc_pn None ++ enc_pn None ++ enc_pn None ++ enc_pn (Some m)
+  else enc_pn None ++ enc_pn None ++ enc_pn (Some m).
+
+(** tag 101: running forms after one selection *)
+Fixpoint take_ops (n : nat) (l : list Z) : list Z * list Z :=
+  match n with
+  | O => ([], l)
+  | S n' =>
+      match l with
+      | k :: a :: b :: c :: t => let '(x, y) := take_ops n' t in (k :: a :: b :: c :: x, y)
+      | _ => ([], [])
+      end
+  end.
+
+Fixpoint pairs_of (l : list Z) : list (N * N) :=
+  match l with
+  | a :: b :: t => (nz a, nz b) :: pairs_of t
+  | _ => []
+  end.
+
+Definition running_ops (kind : Z) (ch : N) (reg : bool) (num n : N) (vs : list Z) : list pnop :=
+  let f := fun c v => NFeed (op_bytes kind (zN (176 + ch)%N) (zN c) (zN v)) in
+  [f (if reg then 101 else 99)%N (num / 128)%N; f (if reg then 100 else 98)%N (num mod 128)%N]
+    ++ (if N.eqb n 0%N then flat_map (fun p => [f 38%N (fst p); f 6%N (snd p)]) (pairs_of vs)
+        else map (fun v => f n (nz v)) vs).
+
+Definition model_101 (ch : N) (reg : bool) (num n : N) (kind : Z) (prior : list pnop)
+  (vs : list Z) : list Z :=
+  match pn_run pn_new_scanner prior with
+  | Ok (s, _) => outs_or_panic (pn_run s (running_ops kind ch reg num n vs)) enc_pn
+  | Panic => [ZPANIC]
+  end.
+
+Definition spec_101 (ch : N) (reg : bool) (num n : N) (vs : list Z) : list Z :=
+  enc_pn None ++ enc_pn None ++
+  (if N.eqb n 0%N then
+     flat_map (fun p => enc_pn None ++
+                        enc_pn (Some (mkPN ch num (128 * snd p + fst p)%N reg true DataEntry)))
+              (pairs_of vs)
+   else
+     flat_map (fun v => enc_pn (Some (mkPN ch num (nz v) reg false
+                                        (if N.eqb n 96%N then DataIncrement
+                                         else if N.eqb n 97%N then DataDecrement else DataEntry))))
+              vs).
+
+(** tag 110: a history of feeds and resets from a new scanner *)
+Definition model_110 (h : list pnop) : list Z := outs_or_panic (pn_run pn_new_scanner h) enc_pn.
+Definition spec_110 (h : list pnop) : list Z := flat_map enc_pn (pn_spec_outs h).
+
 Definition check (tag : Z) (inp obs : list Z) : verdict :=
   match tag, inp with
   | 70, [ch; cn; v] => verdict_of obs (model_70 (nz ch) (nz cn) (nz v)) (spec_70 (nz ch) (nz cn) (nz v))
@@ -121,5 +245,16 @@ Definition check (tag : Z) (inp obs : list Z) : verdict :=
       verdict_of obs (model_71 (nz ch) (nz cn) (nz v) k (dec_cc14ops prior))
         (spec_71 (nz ch) (nz cn) (nz v))
   | 80, h => verdict_of obs (model_80 (dec_cc14ops h)) (spec_80 (dec_cc14ops h))
+  | 90, [k; ch; num; v; order] =>
+      verdict_of obs (model_90 k (nz ch) (nz num) (nz v) order) (spec_90 k (nz ch) (nz num) (nz v) order)
+  | 100, k :: ch :: num :: v :: order :: kind :: prior =>
+      verdict_of obs (model_100 k (nz ch) (nz num) (nz v) order kind (dec_pnops prior))
+        (spec_100 k (nz ch) (nz num) (nz v))
+  | 101, ch :: reg :: num :: n :: kind :: nprior :: rest =>
+      let '(prior, vs) := take_ops (Z.to_nat nprior) rest in
+      verdict_of obs
+        (model_101 (nz ch) (Z.eqb reg 1) (nz num) (nz n) kind (dec_pnops prior) vs)
+        (spec_101 (nz ch) (Z.eqb reg 1) (nz num) (nz n) vs)
+  | 110, h => verdict_of obs (model_110 (dec_pnops h)) (spec_110 (dec_pnops h))
   | _, _ => bad_record
   end.
